@@ -1,8 +1,8 @@
-HOOK_COMMITS = []
+HOOK_COMMITS = ['6362709']
 NOTES = ("One entry point: ./check <id> --tier quick|thorough. Every check rebuilds its harness from /repo's working tree "
          "(override with VERIF_REPO for scratch worktrees), re-checks the Lean proofs and their axioms, and runs the "
          "model/implementation correspondence. known_findings.json lists recorded defects; see DESIGN.md.")
 NOT_APPLICABLE = {}
 CLAIMED = {}
 # properties whose check has been integrated (fix commits applied to /repo, check passes on /repo at several seeds)
-INTEGRATED = ['C04', 'C05', 'C06', 'C10', 'C11', 'C13', 'C16', 'C17', 'C18']
+INTEGRATED = ['C03', 'C04', 'C05', 'C06', 'C10', 'C11', 'C13', 'C16', 'C17', 'C18']
